@@ -9,34 +9,32 @@
    entry of msg_senders, in any order, waiting while a queue is full), LBcastEnd (next message, or senders.clear() and exit),
    LTask i (task i makes its next move).  The history IS the scheduler, the transport's chunking and the fault: nothing restricts
    which enabled action comes next.  [stuck c s]: no action is enabled.  [final s]: the reader is gone, every call has a
-   result, every stream has ended or was refused.  [raced s]: an entry was put into msg_senders after the reader cleared it. *)
+   result, every stream has ended or was refused. *)
 From ZV Require Import Base.Bytes Base.Res C38.Model C38.Spec C38.Progress C38.Measure C38.PrefixA C38.PrefixC C38.Proofs C38.Later
   C38.Run C38.RunFacts.
 
-(* the property at full strength: whenever nothing can move any more, everything has completed *)
+(* the property at full strength: for EVERY fault position, fault kind, chunking and schedule, whenever nothing can move any
+   more every pending call has completed and every stream has ended or was refused *)
 Definition C38_full_statement : Prop :=
   forall (c : cfg) (ts : list task) (tr : list label) (s : st),
     wf c -> forallb fresh_task ts = true -> reach c ts tr s -> stuck c s -> final s.
 
-(* REFUTED by the model of the code as it is: a bus connection whose peer disappears right after the AddMatch reply of a
-   subscription — add_match tested msg_senders before the round trip and inserts after the reader cleared it; the stream
-   never ends (and later subscriptions to the same rule are accepted and never end either) *)
-Theorem C38_addmatch_race_refuted :
-  exists (c : cfg) (ts : list task) (tr : list label) (s : st),
-    wf c /\ forallb fresh_task ts = true /\ reach c ts tr s /\ stuck c s /\ ~ final s /\ raced s = true.
-Proof. exact race_exists. Qed.
-Print Assumptions C38_addmatch_race_refuted.
+Theorem C38_no_hang : C38_full_statement.
+Proof. exact full_statement_holds. Qed.
+Print Assumptions C38_no_hang.
 
-Theorem C38_full_statement_refuted : ~ C38_full_statement.
-Proof. exact full_statement_refuted. Qed.
-Print Assumptions C38_full_statement_refuted.
-
-(* outside that class: for EVERY fault position, fault kind, chunking and schedule, a state in which nothing can move is a
-   state in which every pending call has completed and every stream has ended *)
-Theorem C38_no_hang_partial : forall (c : cfg) (ts : list task) (tr : list label) (s : st),
-  wf c -> reach c ts tr s -> raced s = false -> stuck c s -> final s.
+(* the same without the restriction on the initial tasks *)
+Theorem C38_no_hang_any_tasks : forall (c : cfg) (ts : list task) (tr : list label) (s : st),
+  wf c -> reach c ts tr s -> stuck c s -> final s.
 Proof. exact stuck_final. Qed.
-Print Assumptions C38_no_hang_partial.
+Print Assumptions C38_no_hang_any_tasks.
+
+(* msg_senders stays empty once the reader has cleared it: add_match re-tests under the lock that inserts (fix 3703ee13).
+   Before that repair this was refuted (a stream that never ends; known finding addmatch_race, now fixed) *)
+Theorem C38_senders_stay_cleared : forall (c : cfg) (ts : list task) (tr : list label) (s : st),
+  reach c ts tr s -> s_rd s = RdDone -> s_senders s = [].
+Proof. exact I3_reach. Qed.
+Print Assumptions C38_senders_stay_cleared.
 
 (* ... and such a state is always reached: every action strictly decreases the natural number [mu c s], so no schedule runs
    for more than [mu c (init ts)] steps (no livelock, no unbounded waiting on a full queue) *)
@@ -94,7 +92,7 @@ Theorem C38_later_fail_call : forall (c : cfg) (s : st) (i serial cost : nat),
 Proof. exact later_call_fails. Qed.
 Print Assumptions C38_later_fail_call.
 
-(* add_match after the reader's exit is refused with BrokenPipe (as long as nobody raced an entry into msg_senders) *)
+(* add_match after the reader's exit is refused with BrokenPipe (msg_senders is empty then: C38_senders_stay_cleared) *)
 Theorem C38_later_fail_subscription : forall (c : cfg) (s : st) (i r a b : nat),
   s_rd s = RdDone -> s_senders s = [] -> nth_error (s_tasks s) i = Some (TStream (Some r) a b SNew) ->
   tstep c s i = Some (set_task s i (TStream (Some r) a b (SFail OPipe))).
